@@ -50,6 +50,15 @@ def salt(S, obj, seq, rng, rep, k=None, cheap=False):
             so.swapRes(rng.randrange(n_), rng.randrange(n_))
             so.swapRandChargeRes(set())
             so.full_shuffle(set())
+            # the block and cluster moves may decline (too few charged residues) and retry until they find another delta,
+            # which on some chains never happens: they run on a tape with a draw budget
+            from .tapes import Shim, TapeExhausted, installed
+            for mv in ("permute_block_swap", "permute_cluster_charges"):
+                try:
+                    with installed([S["seqmod"]], Shim("salt/%s/%s" % (mv, seq[:20]), budget=3000)):
+                        getattr(so, mv)()
+                except (Exception, TapeExhausted):
+                    pass
         elif name == "kappa":
             obj.get_kappa()
         elif name == "deltamax_perm":
@@ -120,12 +129,59 @@ def present(rng, seq):
     return "".join(out)
 
 
+_file_dir = {}
+
+
+def from_file(S, seq, rng, rep):
+    """The object a user gets who keeps the sequence in a file: FASTA or raw, wrapped, in blocks of ten, blocks separated by
+    blank lines, with a terminal stop codon, numbered - all layouts the file reader documents.  The same path is re-used for
+    different sequences (and sometimes the previous file ended in a stop codon)."""
+    d = _file_dir.get("d")
+    if d is None or not os.path.isdir(d):
+        d = _file_dir["d"] = tempfile.mkdtemp(prefix="lcverif_files_")
+        import atexit
+        atexit.register(shutil.rmtree, d, True)
+    width = rng.choice([60, 10, 80, 7, max(1, len(seq))])
+    lines = [seq[i:i + width] for i in range(0, len(seq), width)]
+    layout = rng.choice(["plain", "blocks", "blank_separated", "numbered"])
+    if layout == "blocks":
+        lines = [" ".join(l[i:i + 10] for i in range(0, len(l), 10)) for l in lines]
+    elif layout == "blank_separated":
+        lines = [x for l in lines for x in (l, "")]
+    elif layout == "numbered":
+        lines = ["%9d %s" % (i * width + 1, l) for i, l in enumerate(lines)]
+    if rng.random() < 0.4:
+        lines = [">sp|Q00000|TEST some protein"] + lines
+    if rng.random() < 0.35:
+        if rng.random() < 0.5:
+            lines[-1 if lines[-1] else -2] += "*"
+        else:
+            lines.append("*")
+    text = rng.choice(["\n", "\n", "\r\n"]).join(lines) + rng.choice(["\n", ""])
+    if rng.random() < 0.7:
+        text += "\n" * (-len(text) % 128)           # trailing blank lines up to a round size: many files of equal size
+    path = os.path.join(d, rng.choice(["seq.fasta", "seq.fasta", "other.txt"]))
+    with open(path, "w", newline="") as fh:
+        fh.write(text)
+    # the path keeps the time stamps of the first file written there (cp -p, rsync -t, archive extraction)
+    times = _file_dir.setdefault("times", {})
+    if path not in times:
+        st_ = os.stat(path)
+        times[path] = (st_.st_atime_ns, st_.st_mtime_ns)
+    elif rng.random() < 0.6:
+        os.utime(path, ns=times[path])
+    rep.cnt("objects_built_from_files")
+    return S["SP"](sequenceFile=path)
+
+
 def make_object(S, seq, rng, rep, allow_backend=True):
     """An object for `seq` obtained the way different users obtain one: plain string, typed with blanks / line breaks /
     lower case, or a front-end handle around a backend object built from lower-/mixed-case text."""
     r = rng.random()
-    if r < 0.5:
+    if r < 0.42:
         return S["SP"](seq)
+    if r < 0.5:
+        return from_file(S, seq, rng, rep)
     if r < 0.6:
         # an object that went through pickle / copy (multiprocessing pools, caches on disk)
         import copy
